@@ -378,7 +378,10 @@ def ImplMon.feed (m : ImplMon) (line : String) : ImplMon × List String :=
       | "MinHourlyPrices" => { md with minHr := true }
       | _ => md
       else md
-    let cur := if parts.headD "" = "reimport" ∧ res.startsWith "accept" then [] else m.cur
+    let reimported := parts.headD "" = "reimport" ∧ res.startsWith "accept"
+    let cur := if reimported then [] else m.cur
+    -- an imported genesis shares its commit with the next block: every price-bound key is marked modified
+    let md : Modified := if reimported then { maxGB := true, minGB := true, maxHr := true, minHr := true } else md
     ({ m with res := res, modified := md, cur := cur }, [])
   else if line.startsWith "+S " then ({ m with cur := (line.drop 1).toString :: m.cur, hasDelta := true }, [])
   else if line.startsWith "-S " then
